@@ -446,7 +446,7 @@ func checkC14(r *Run) {
 		i := i
 		reqs = append(reqs, func() *descgen.Entry { return descgen.Random(r.Seed, i, descgen.RandOpt{}) })
 	}
-	runs := r.pick(6, 24)
+	runs := r.pick(10, 24)
 	shuffles := r.pick(3, 6)
 	var all []*pipeline.Case
 	type grp struct {
